@@ -20,7 +20,14 @@ def _gen_worker(job):
     import hashlib
     from props import ALL_CONTRACTS, build_registry
     reg = build_registry()
-    rep = verify(ALL_CONTRACTS[name], reg, repo)
+    try:
+        rep = verify(ALL_CONTRACTS[name], reg, repo)
+    except Exception as e:          # a crash of the generator is never a verdict about the code
+        import traceback
+        from .contract import FunctionReport
+        rep = FunctionReport(ALL_CONTRACTS[name])
+        rep.status, rep.reason = "engine_error", f"{type(e).__name__}: {e} | " + traceback.format_exc(limit=4).replace("\n", " / ")[-600:]
+        rep.obligations = []
     items = []
     for ob in rep.obligations:
         text = ob.smt2()
